@@ -409,9 +409,98 @@ def tags_of(t):
     return tags
 
 
-def header_shapes():
-    """C14: the built-in header shapes over {identifier, keyword, '(', ')', '{', other}."""
-    return []
+def header_tokens():
+    from pygments.token import Token as T
+    from codelimit.common.Token import Token
+    from codelimit.common.Location import Location
+    mk = lambda ty, v: Token(Location(1, 1), ty, v)
+    return {"id": mk(T.Name, "x"), "kw": mk(T.Keyword, "function"), "(": mk(T.Punctuation, "("), ")": mk(T.Punctuation, ")"),
+            "{": mk(T.Punctuation, "{"), "o": mk(T.Operator, "=")}
+
+
+def header_patterns():
+    from codelimit.common.gsm.operator.OneOrMore import OneOrMore
+    from codelimit.common.gsm.operator.Optional import Optional
+    from codelimit.common.token_matching.predicate.Balanced import Balanced
+    from codelimit.common.token_matching.predicate.Keyword import Keyword
+    from codelimit.common.token_matching.predicate.Name import Name
+    return {"name-groups": (lambda: [Name(), OneOrMore(Balanced("(", ")"))], False, False),
+            "optkw-name-groups": (lambda: [Optional(Keyword("function")), Name(), OneOrMore(Balanced("(", ")"))], True, False),
+            "kw-name-groups": (lambda: [Keyword("function"), Name(), OneOrMore(Balanced("(", ")"))], True, True)}
+
+
+def ref_header_end(seq, s, opt_kw, req_kw):
+    """end of the greedy run of [kw?] id group+ from s (None if it does not succeed); groups balance parentheses"""
+    i = s
+    n = len(seq)
+    if i < n and seq[i] == "kw" and (opt_kw or req_kw):
+        i += 1
+    elif req_kw:
+        return None
+    if i >= n or seq[i] != "id":
+        return None
+    i += 1
+    groups = 0
+    while i < n and seq[i] == "(":
+        depth = 0
+        while i < n:
+            if seq[i] == "(":
+                depth += 1
+            elif seq[i] == ")":
+                depth -= 1
+            i += 1
+            if depth == 0:
+                break
+        groups += 1
+        if depth != 0:
+            return i        # input ended inside a group: the run ends with the input
+    return i if groups >= 1 else None
+
+
+def check_header_shapes(maxlen):
+    from codelimit.common.gsm.matcher import find_all
+    toks = header_tokens()
+    names = list(toks)
+    fails, n = [], 0
+    for pname, (mk, opt_kw, req_kw) in header_patterns().items():
+        for ln in range(0, maxlen + 1):
+            for seq in itertools.product(names, repeat=ln):
+                n += 1
+                st, ms = guarded(lambda: find_all(mk(), [toks[x] for x in seq]))
+                if st != "ok":
+                    fails.append((f"headers:{pname}:find_all-{st}", f"{pname} on {list(seq)}: {ms}", list(seq)))
+                    continue
+                spans = [(m.start, m.end) for m in ms]
+                prev = 0
+                bad = None
+                for (a, b), m in zip(spans, ms):
+                    e = ref_header_end(seq, a, opt_kw, req_kw)
+                    if not (0 <= a < b <= len(seq)):
+                        bad = ("bounds", f"match {(a, b)}")
+                    elif [t.value for t in m.tokens] != [toks[x].value for x in seq[a:b]]:
+                        bad = ("items", f"match {(a, b)} records {[t.value for t in m.tokens]}")
+                    elif e is None:
+                        bad = ("not-a-word", f"match {(a, b)} is not a header")
+                    elif e != b:
+                        bad = ("not-longest-or-unbalanced", f"match {(a, b)} but the balanced header from {a} ends at {e}")
+                    elif a < prev:
+                        bad = ("order-or-overlap", f"matches {spans}")
+                    if bad:
+                        break
+                    prev = b
+                if bad:
+                    fails.append((f"headers:{bad[0]}", f"{pname} on {list(seq)}: {bad[1]}", list(seq)))
+                    continue
+                for s0 in range(len(seq)):
+                    e = ref_header_end(seq, s0, opt_kw, req_kw)
+                    if e is not None and not any(a <= s0 < b for a, b in spans):
+                        inside = any(s0 < a < e for a, b in spans)
+                        fails.append(("headers:coverage" + ("[younger-match-inside-older-attempt]" if inside else ""),
+                                      f"{pname} on {list(seq)}: header from {s0} to {e} not covered by {spans}", list(seq)))
+                        break
+                if len(fails) > 30:
+                    return fails, n
+    return fails, n
 
 
 def main():
@@ -464,7 +553,15 @@ def main():
     with Pool(min(16, os.cpu_count() or 2)) as pool:
         results = pool.map(chunk_work, [(prop, c, maxlen) for c in chunks])
     fails = [f for r in results for f in r["failures"]]
-    print(json.dumps({"evaluations": sum(r["evaluations"] for r in results), "distinct_nontrivial": sum(r["distinct"] for r in results),
+    extra_n = 0
+    if prop == "C14":
+        hf, extra_n = check_header_shapes(6 if tier == "quick" else 7)
+        seen_k = {}
+        for kind, what, sq in hf:
+            seen_k[kind] = seen_k.get(kind, 0) + 1
+            if seen_k[kind] <= 2:
+                fails.insert(0, {"name": f"C14:{kind}", "what": what, "case": {"header_sequence": sq}, "tags": []})
+    print(json.dumps({"evaluations": extra_n + sum(r["evaluations"] for r in results), "distinct_nontrivial": sum(r["distinct"] for r in results),
                       "failures": fails[:60], "samples": [{"pattern": show(all_trees[40]), "sequences": f"all over {ALPHA} up to length {maxlen}"}],
                       "faults": [r["fault"] for r in results if r.get("fault")]}))
 
